@@ -340,6 +340,30 @@ def signature_rule(chk, prog):
         chk.discharge(key)
 
 
+def macro_expansion_unsafe(chk, prog):
+    """X: the unsafe operations that to_dyn! puts into a SAFE downstream function.  Shares the variant-set dataflow of C17.D
+    (witness/todyn, analysed with the same driver); here only the memory-safety part counts: a raw-pointer constructor must be
+    fed the raw-pointer payload of the same variant (not, say, Arc::as_ptr of an owning variant that is dropped at the end
+    of the arm)."""
+    import rules.C17 as C17
+    import report
+    key = "X:to_dyn-expansion-unsafe"
+    chk.obligation(key, "unsafe constructor calls inside to_dyn!'s expansion are justified by the payload of the matching variant")
+    sub = report.Check("C16", chk.tier)
+    C17.to_dyn_expansion(sub, prog)
+    chk.evaluated(max(1, sub.n_eval if hasattr(sub, "n_eval") else 1), nontrivial=(key,))
+    ok = True
+    for v in sub.violations:
+        if v["rule"] in ("analysis-incomplete", "floor"):
+            chk.violation(v["rule"], key + ":" + v["key"], v["what"])
+            ok = False
+        elif ":wrong-ctor:" in v["key"] or ":payload:" in v["key"]:
+            chk.violation("C16.X", "to_dyn:" + v["key"].split("D:to_dyn-expansion:")[-1], v["what"] + " - in a safe downstream function this hands out a Reference whose pointer is not covered by any constructor's safety contract (dangling once the source is dropped)", **v.get("detail", {}))
+            ok = False
+    if ok:
+        chk.discharge(key)
+
+
 def macro_unsafe_hygiene(chk, prog):
     """Exported macros: no caller-supplied expression/token fragment may be expanded inside an `unsafe` block of the macro."""
     import re
@@ -384,6 +408,7 @@ def run(chk):
     chk.rule("C16.U", "every unsafe operation in a safe fn has a provenance justification")
     chk.rule("C16.L", "no raw-pointer lifetime laundering in safe fns")
     chk.rule("C16.P", "no safe dereference of a raw pointer stored in a publicly constructible field")
+    chk.rule("C16.X", "unsafe constructor calls in the downstream expansion of to_dyn! receive the payload of the same-kind variant of the converted Reference through moves and pointer casts only (the validity invariant established when that Reference was built carries over)")
     chk.rule("C16.M", "exported macros never expand caller-supplied expressions inside their own unsafe blocks")
     chk.rule("C16.S", "raw-pointer -> Reference conversions are unsafe fn; Reference payload private")
     sim = S.Sim(prog)
@@ -396,6 +421,7 @@ def run(chk):
     laundering_rule(chk, prog, cands)
     signature_rule(chk, prog)
     macro_unsafe_hygiene(chk, prog)
+    macro_expansion_unsafe(chk, prog)
     import selftest
     def _inv_and_laundering(c, p):
         laundering_rule(c, p, inventory(c, p))
